@@ -204,7 +204,10 @@ where
                 time_to_sample = sampling_freq;
             }
         }
-        states.into_iter().zip(energy_acc.into_iter()).collect()
+        states
+            .into_iter()
+            .zip(energy_acc.into_iter().map(|e| e / timesteps as f64))
+            .collect()
     }
 
     /// Apply f to each graph's state.
@@ -449,7 +452,10 @@ pub mod rayon_tempering {
                     time_to_sample = sampling_freq;
                 }
             }
-            states.into_iter().zip(energy_acc.into_iter()).collect()
+            states
+            .into_iter()
+            .zip(energy_acc.into_iter().map(|e| e / timesteps as f64))
+            .collect()
         }
     }
 
